@@ -281,6 +281,13 @@ class Enumerator:
                 v = self.val_of(st, on)
                 targets = t["targets"]
                 ow = t["otherwise"]
+                if v is None and t["ty"] == "bool" and not is_const(on):
+                    pl = op_place(on)
+                    if any(isinstance(e, dict) and "f" in e for e in pl.get("p", [])):
+                        # `if self.opt.flag { .. }`: a bool field switched on directly
+                        key = self.key_of(pl)
+                        cur = st.disc.get(key)
+                        v = ("const", cur == "true") if cur in ("true", "false") else ("fieldbool", key)
                 if v and v[0] == "const":
                     iv = int(v[1]) if isinstance(v[1], bool) else v[1]
                     nxt = ow
